@@ -65,10 +65,16 @@ def plan(repo, tier, cap=300000, files=None):
     (None = all).  Sizes above `cap` are left out (resource limit of the workload, recorded in the evidence)."""
     consts = harvest(repo)
     novel = [c for c in consts if c not in BASELINE and (files is None or any(f in files for f in consts[c]))]
+    # a large constant may be a budget in bytes or in bits: the element counts it corresponds to (item sizes 2, 4, 8 bytes; 8 bits) count as well
+    derived = []
+    for c in novel:
+        if c >= 4096:
+            derived += [c // k for k in (2, 4, 8) if c % k == 0 and c // k not in BASELINE and c // k not in consts]
+    novel = novel[:16] + sorted(set(derived))[:24]
     base = [c for c in BASELINE]
     out = []
     seen = set()
-    for grp, isnovel in ((novel[:16], True), (base, False)):
+    for grp, isnovel in ((novel, True), (base, False)):
         for c in grp:
             for d in ((0, 1, -1) if (isnovel or c <= 1000) else (0, 1)):
                 s = c + d
